@@ -1197,15 +1197,21 @@ def _replay_particle_s2(case, clause, model, seed):
             ndelta = rng.choice([8, 25, 60])
             sig = np.array([[rng.uniform(0.08, 0.3) for _ in range(K)] for _ in range(K)])
             sig = (sig + sig.T) / 2 if k % 2 else sig         # also non-symmetric width matrices
-            frames, types = [], []
+            if k % 6 == 3:
+                T = 3            # sheared trajectory below: the tilt changes from frame to frame at constant box lengths
+            frames, types, Hs = [], [], []
             for n in range(T):
+                Hn = H.copy()
+                if k % 6 == 3 and n > 0:
+                    Hn[1, 0] = rng.uniform(-1.2, 1.2)
+                Hs.append(Hn)
                 frac = np.array([[rng.random() for _ in range(d)] for _ in range(N)])
-                frames.append(frac @ H)
+                frames.append(frac @ Hn)
                 types.append(np.array([rng.randint(1, K) for _ in range(N)]))
             fs = [ru.SingleSnapshot(timestep=n, nparticle=N, particle_type=types[n].copy(), positions=frames[n].copy(), boxlength=np.array(L),
-                                    boxbounds=np.array([[0.0, x] for x in L]), realbounds=None, hmatrix=H.copy()) for n in range(T)]
+                                    boxbounds=np.array([[0.0, x] for x in L]), realbounds=None, hmatrix=Hs[n].copy()) for n in range(T)]
             snaps = ru.Snapshots(nsnapshots=T, snapshots=fs)
-            inputs = {"positions": [f.tolist() for f in frames], "types": [t.tolist() for t in types], "hmatrix": H.tolist(), "ppp": ppp.tolist(),
+            inputs = {"positions": [f.tolist() for f in frames], "types": [t.tolist() for t in types], "hmatrix_per_frame": [h.tolist() for h in Hs], "ppp": ppp.tolist(),
                       "sigmas": sig.tolist(), "rdelta": rdelta, "ndelta": ndelta}
             try:
                 with np.errstate(all="ignore"):
@@ -1223,10 +1229,10 @@ def _replay_particle_s2(case, clause, model, seed):
                 return {"ran": True, "failed": True, "inputs": inputs, "detail": f"result shape {got.shape}"}
             V = abs(np.linalg.det(H)) if tilt == 0.0 else float(np.prod(L))      # the code's density uses prod(boxlength)
             rho = N / float(np.prod(L))
-            Hinv = np.linalg.inv(H)
             r = np.array([(b + 0.5) * rdelta for b in range(ndelta)])
             rmax = (ndelta - 0.5) * rdelta
             for n in range(T):
+                Hn, Hinv = Hs[n], np.linalg.inv(Hs[n])          # the cell of THIS frame
                 for i in range(N):
                     g = np.zeros(ndelta)
                     for j in range(N):
@@ -1235,7 +1241,7 @@ def _replay_particle_s2(case, clause, model, seed):
                         dv = frames[n][j] - frames[n][i]
                         m = dv @ Hinv
                         m = m - np.round(m) * ppp
-                        dv = m @ H
+                        dv = m @ Hn
                         dist = math.sqrt(float(dv @ dv))
                         if dist < rmax:
                             s_ = sig[types[n][i] - 1, types[n][j] - 1]
